@@ -19,8 +19,10 @@ from ..core import TranslateError, clist, cnat, cnats, np_seed
 
 SRC = 'skfem/assembly/dofs.py'
 
+DIM_SPELLINGS = {'element.dim': lambda e: int(e.dim), 'element.refdom.dim()': lambda e: int(e.refdom.dim())}
+DIM_OF = {'f': None}      # set by translate(): how the source spells the spatial dimension in its guards
 ENV = {'element.nodal_dofs': 'nd', 'element.edge_dofs': 'ed', 'element.facet_dofs': 'fd',
-       'element.interior_dofs': 'id', 'element.dim': 'dim', 'topo.nvertices': 'nv', 'topo.nedges': 'ne',
+       'element.interior_dofs': 'id', 'topo.nvertices': 'nv', 'topo.nedges': 'ne',
        'topo.nfacets': 'nf', 'topo.nelements': 'nt'}
 TABLES = {'topo.t': 't', 'topo.t2e': 't2e', 'topo.t2f': 't2f'}
 BLOCKS = ['self.nodal_dofs', 'self.edge_dofs', 'self.facet_dofs', 'self.interior_dofs']
@@ -34,6 +36,7 @@ class _Tr:
         self.state = {'offset': 'off'}
         self.counter = 0
         self.N = None
+        self.dim_exprs = set()
 
     def fresh(self, base):
         self.counter += 1
@@ -49,7 +52,11 @@ class _Tr:
         if isinstance(n, ast.BoolOp) and isinstance(n.op, ast.And):
             return '(' + ' && '.join(self.cond(v) for v in n.values) + ')'
         if isinstance(n, ast.Compare) and len(n.ops) == 1 and isinstance(n.comparators[0], ast.Constant):
-            a = t2.Expr(ENV, 'nat').tr(n.left)
+            if t2.src(n.left) in DIM_SPELLINGS:          # the spatial dimension the guards test
+                self.dim_exprs.add(t2.src(n.left))
+                a = 'dim'
+            else:
+                a = t2.Expr(ENV, 'nat').tr(n.left)
             c = n.comparators[0].value
             if isinstance(c, bool) or not isinstance(c, int) or c < 0:
                 raise TranslateError('guard constant: ' + t2.src(n))
@@ -166,6 +173,9 @@ def translate():
     tr.stmts(fn.body, tr.state, True)
     if tr.N is None:
         raise TranslateError('no assignment to self.N')
+    if len(tr.dim_exprs) != 1:
+        raise TranslateError('the guards spell the spatial dimension in several ways: ' + repr(sorted(tr.dim_exprs)))
+    DIM_OF['f'] = DIM_SPELLINGS[next(iter(tr.dim_exprs))]
     for b in BLOCKS + ['self.element_dofs']:
         if b not in tr.state:
             raise TranslateError(f'{b} never assigned')
@@ -221,9 +231,15 @@ def topo_tables(topo, dim, ed):
             np.asarray(topo.t), np.asarray(topo.t2e) if use_e else np.zeros((0, 0), dtype=int), np.asarray(topo.t2f))
 
 
+def guard_dim(elem):
+    """the value of the expression Dofs.__init__ uses as spatial dimension (element.dim or element.refdom.dim())"""
+    f = DIM_OF['f'] or DIM_SPELLINGS['element.refdom.dim()']
+    return f(elem)
+
+
 def case_of(topo, elem, off):
     from skfem.assembly import Dofs
-    nd, ed, fd, idd, dim = int(elem.nodal_dofs), int(elem.edge_dofs), int(elem.facet_dofs), int(elem.interior_dofs), int(elem.dim)
+    nd, ed, fd, idd, dim = int(elem.nodal_dofs), int(elem.edge_dofs), int(elem.facet_dofs), int(elem.interior_dofs), guard_dim(elem)
     nv, ne, nf, nt, t, t2e, t2f = topo_tables(topo, dim, ed)
     D = Dofs(topo, elem, off) if off else Dofs(topo, elem)
     inp = (f'(({cnat(dim)}, {cnat(nd)}, {cnat(ed)}, {cnat(fd)}, {cnat(idd)}, {cnat(off)}), '
@@ -260,6 +276,7 @@ class StubTopo:
 class StubElem:
     def __init__(self, rng, dim):
         self.dim = dim
+        self.refdom = type('StubRefdom', (), {'dim': staticmethod(lambda d=dim: d)})
         while True:
             self.nodal_dofs, self.edge_dofs, self.facet_dofs, self.interior_dofs = (int(x) for x in rng.integers(0, 4, size=4))
             if self.nodal_dofs + self.interior_dofs + (self.facet_dofs if dim >= 2 else 0) + (self.edge_dofs if dim == 3 else 0) > 0:
@@ -288,7 +305,12 @@ def oracle_dofs(mesh, elem, D):
         missing = sorted(set(range(N)) - set(vals.tolist()))[:5]
         bad.append(f'numbers are not the contiguous range 0..N-1 (unused: {missing})')
         return bad
-    dim, edc = int(elem.dim), int(elem.edge_dofs)
+    nb = int(np.sum(elem._bfun_counts()))
+    if ed_.shape[0] != nb:
+        bad.append(f'element_dofs has {ed_.shape[0]} rows but the element has {nb} local basis functions '
+                   f'(_bfun_counts = {np.asarray(elem._bfun_counts()).tolist()})')
+        return bad
+    dim, edc = int(elem.refdom.dim()), int(elem.edge_dofs)      # the property speaks about the dimension of the cell
     tabs = entity_tables(mesh, dim, edc)
     blocks = {'nodal': np.asarray(D.nodal_dofs), 'edge': np.asarray(D.edge_dofs), 'facet': np.asarray(D.facet_dofs),
               'interior': np.asarray(D.interior_dofs)}
@@ -377,7 +399,7 @@ def run(ctx):
         for name, fac in elems:
             # no 1-D element may carry facet DOFs (hypothesis of the theorems)
             e0 = fac()
-            if int(e0.dim) == 1 and int(e0.facet_dofs) > 0:
+            if int(e0.refdom.dim()) == 1 and int(e0.facet_dofs) > 0:
                 ctx.fail(f'elem={name}:facet-dofs-in-1d', 'a one-dimensional element declares facet DOFs: Dofs numbers them but never '
                          'gathers them (gap in 0..N-1)', {'element': name})
             for i in range(nmesh):
@@ -424,7 +446,7 @@ def on_slot(refdom, elem):
     X = np.asarray(elem.doflocs, dtype=float)
     nd, ed, fd, idd = int(elem.nodal_dofs), int(elem.edge_dofs), int(elem.facet_dofs), int(elem.interior_dofs)
     slots = [([i], nd) for i in range(refdom.nnodes)]
-    slots += [(list(s), ed) for s in (refdom.edges or [])] if int(elem.dim) == 3 and ed > 0 else []
+    slots += [(list(s), ed) for s in (refdom.edges or [])] if int(elem.refdom.dim()) == 3 and ed > 0 else []
     slots += [(list(s), fd) for s in refdom.facets] if fd > 0 else []
     r = 0
     for verts, cnt in slots:
